@@ -1,7 +1,7 @@
 (* C13 — variable metadata reports the declared attributes.
    Property theorems only; proofs live in Proofs/C13_metadata.v. *)
 From Coq Require Import QArith Qcanon List Bool ZArith.
-From PV Require Import Model.C13_metadata Proofs.C13_metadata.
+From PV Require Import Model.C13_metadata Model.C13_poly Proofs.C13_metadata Proofs.C13_poly.
 Import ListNotations.
 Local Open Scope Qc_scope.
 
@@ -55,10 +55,84 @@ Proof.
 Qed.
 Print Assumptions C13_types.
 
-(* C13_test_sound_partial is NOT proved: that a structurally zero CasADi Hessian together
-   with the allowed-operation set implies membership in (or agreement with) the affine class
-   is a statement about CasADi's symbolic differentiation; here it is the hypothesis
-   `rb = true -> affine_ok M = true` of C13_values, validated on every correspondence case. *)
+(* _substitute_metadata: eliminating parameters (entry i of the old parameter vector := nth i sg, an
+   expression over the new one) commutes with evaluation *)
+Theorem C13_substitute (sg : list aexp) (e : aexp) (p : list Qc) :
+  eval p (subst sg e) = eval (map (eval p) sg) e.
+Proof. exact (subst_eval sg e p). Qed.
+Print Assumptions C13_substitute.
+
+(* C13_values after ANY sequence of parameter-eliminating simplify steps (replace_parameter_values,
+   replace_parameter_expressions, ...; including the conversion of attributes that became constant
+   into Python numbers of the variable's type): the metadata function of the simplified model at
+   the remaining parameters p reports the ORIGINALLY declared expressions at the corresponding
+   original valuation env_back steps p.  steps_ok: an Integer attribute that becomes constant has
+   an integral value. *)
+Theorem C13_values_steps (rb : bool) (steps : list (list aexp)) (M : model) (p : list Qc) :
+  steps_ok steps M = true ->
+  model_wf (run steps M) = true -> safe_ok p (run steps M) = true ->
+  (rb = true -> affine_ok (run steps M) = true) ->
+  metadata rb (run steps M) p = Some (spec_metadata (env_back steps p) M).
+Proof. exact (metadata_steps rb steps M p). Qed.
+Print Assumptions C13_values_steps.
+
+(* vector / matrix valued attribute expressions (start = pa, 2*pa, 3*P, P + fill(p,2,3)): the element
+   expressions the model puts into the matrix cells (and, for _expand_vectors, on element k) evaluate
+   to the entries of the vector value; C13_values / C13_values_steps cover DVec / DVecEl declarations
+   with veval as their specification *)
+Theorem C13_vector_elements (p : list Qc) (v : vexp) :
+  map (eval p) (velems v) = veval p v.
+Proof. exact (velems_eval p v). Qed.
+Print Assumptions C13_vector_elements.
+
+(* The affinity test on the polynomial fragment (constants, parameters, + - * neg, integer powers,
+   division by parameter-free terms), expanded into terms c * p_x1 ... p_xk without combining like
+   terms (CasADi's structural view).  "No second structural partial derivative has a term" (the
+   code's `jacobian(jacobian(expr, in_var), in_var).is_zero()`)  <->  every term has total degree
+   <= 1  <->  the expansion is in the syntactic affine class; every member of the syntactic affine
+   class passes;
+   and when the test passes, the affine rebuild the code performs - J(0)*p + f(0) of the expression
+   itself - reproduces the declared expression at every parameter valuation (the derivative d0 used by
+   the rebuild is proved to be the derivative of the expansion).
+   PARTIAL: (a) outside the polynomial fragment (pnorm e = None: division by a parameter-dependent
+   term, if-expressions, functions) nothing is proved - there the branch taken stays an observed input
+   of the model (rb) with the contract `rb = true -> affine_ok M`; (b) the allowed-operation set is
+   not modelled (it only makes the code reject more); (c) that CasADi's sparsity propagation computes
+   exactly this structural Hessian is assumed. *)
+Theorem C13_test_sound_partial :
+  (forall P, hess_zero P <-> deg_le1 P = true) /\
+  (forall P, deg_le1 P = affine (to_aexp P)) /\
+  (forall e P, pnorm e = Some P -> affine e = true -> hess_zero P) /\
+  (forall e P p, pnorm e = Some P -> safe p e = true -> eval p e = peval p P) /\
+  (forall e P p, pnorm e = Some P -> safe p e = true -> hess_zero P -> rebuild e p = eval p e).
+Proof.
+  split; [exact hess_zero_iff_degree|]. split; [exact degree_iff_affine|]. split.
+  - intros e P N A. apply hess_zero_iff_degree. exact (affine_deg_le1 e P N A).
+  - split; [exact (fun e P p N S => pnorm_eval p e P N S)|exact test_sound_rebuild].
+Qed.
+Print Assumptions C13_test_sound_partial.
+
+(* C13_values with the MODELLED test as the branch contract: if the rebuild branch is only taken when
+   every symbolic cell is polynomial with a structurally zero Hessian, the metadata function reports
+   the declared attributes *)
+Theorem C13_values_test (rb : bool) (M : model) (p : list Qc) :
+  model_wf M = true -> safe_ok p M = true -> (rb = true -> test_ok M = true) ->
+  metadata rb M p = Some (spec_metadata p M).
+Proof. exact (metadata_spec_test rb M p). Qed.
+Print Assumptions C13_values_test.
+
+(* the two seeded replacements of the Hessian test are unsound: p*q*r passes the numeric test at
+   p = 0 (C13/m1), p*q passes the per-parameter (block-diagonal) test (C19/m1); both fail the
+   structural test and their affine rebuild differs from the declared value at p = (1,1,1) *)
+Theorem C13_numeric_test_refuted :
+  exists e P p, pnorm e = Some P /\ hess_num0 P /\ ~ hess_zero P /\ rebuild e p <> eval p e.
+Proof. exact numeric_test_refuted. Qed.
+Print Assumptions C13_numeric_test_refuted.
+
+Theorem C13_blockdiag_test_refuted :
+  exists e P p, pnorm e = Some P /\ hess_diag P /\ ~ hess_zero P /\ rebuild e p <> eval p e.
+Proof. exact blockdiag_test_refuted. Qed.
+Print Assumptions C13_blockdiag_test_refuted.
 
 (* non-vacuity: Real y[2](each min = -p1, max = {p0/2 + 1, 3}, start = 2) and Integer i(max = 7)
    with two parameters, rebuilt branch, at p = (3, 1/2) *)
